@@ -5,14 +5,20 @@ package req
 import (
 	"bufio"
 	"bytes"
+	"crypto/tls"
 	"io"
 	"math/rand"
+	"net"
 	"net/http"
 	"net/http/httptest"
 	"net/url"
 	"sort"
 	"strings"
+	"reflect"
 	"sync"
+	"time"
+
+	qhttp3 "github.com/quic-go/quic-go/http3"
 
 	"github.com/imroc/req/v3/internal/verifh"
 )
@@ -179,7 +185,8 @@ type c17Seen struct {
 type c17Origin struct {
 	mu   sync.Mutex
 	seen []c17Seen
-	srv  *httptest.Server
+	base string // scheme://127.0.0.1:port
+	stop func()
 	// download: body served for GET /dl?id=…
 	dl map[string][]byte
 }
@@ -237,25 +244,49 @@ func (o *c17Origin) take() []c17Seen {
 	return s
 }
 
-// c17NewOrigin starts an origin: proto "h1" (cleartext HTTP/1.1) or "h2" (TLS + ALPN h2).
+// c17NewOrigin starts an origin: proto "h1" (cleartext HTTP/1.1), "h2" (TLS + ALPN h2, net/http's
+// bundled x/net/http2 server) or "h3" (quic-go http3 server on loopback UDP).
 func c17NewOrigin(proto string) *c17Origin {
 	o := &c17Origin{dl: map[string][]byte{}}
 	srv := httptest.NewUnstartedServer(http.HandlerFunc(o.handler))
-	if proto == "h2" {
+	switch proto {
+	case "h2":
 		srv.EnableHTTP2 = true
 		srv.StartTLS()
-	} else {
+		o.base, o.stop = srv.URL, srv.Close
+	case "h3":
+		srv.StartTLS() // only to borrow its certificate
+		pc, err := net.ListenPacket("udp", "127.0.0.1:0")
+		if err != nil {
+			panic(err)
+		}
+		s3 := &qhttp3.Server{Handler: http.HandlerFunc(o.handler), TLSConfig: qhttp3.ConfigureTLSConfig(&tls.Config{Certificates: srv.TLS.Certificates})}
+		go s3.Serve(pc)
+		o.base = "https://" + pc.LocalAddr().String()
+		o.stop = func() { s3.Close(); pc.Close(); srv.Close() }
+	default:
 		srv.Start()
+		o.base, o.stop = srv.URL, srv.Close
 	}
-	o.srv = srv
 	return o
 }
 
 func c17Client(proto string) *Client {
 	c := C().EnableInsecureSkipVerify()
-	if proto == "h2" {
+	c.SetTimeout(30 * time.Second)
+	switch proto {
+	case "h2":
 		c.EnableForceHTTP2()
-	} else {
+	case "h3":
+		c.EnableForceHTTP3()
+		// Before fixes/C12-1 the fork's HTTP/3 round tripper reads a TLS field of its own; set it
+		// when it (still) exists — through reflection, so that the harness compiles either way.
+		if c.Transport.t3 != nil {
+			if f := reflect.ValueOf(c.Transport.t3).Elem().FieldByName("TLSClientConfig"); f.IsValid() && f.CanSet() {
+				f.Set(reflect.ValueOf(&tls.Config{InsecureSkipVerify: true}))
+			}
+		}
+	default:
 		c.EnableForceHTTP1()
 	}
 	return c
